@@ -60,6 +60,10 @@ view == <<setup, slice, cur>>
 
 (* setup = [type   : "hash" | "range",
             sk     : sequence of tag keys (ascending) = the shard key; <<>> = none,
+            sk2    : the shard key after ALTER MEASUREMENT .. SHARDKEY (= sk when never altered),
+            alter  : the alteration happens after the groups of `created' with a smaller index exist
+                     (99 = never); every group created later - also on demand by a write - uses sk2
+                     (MeasurementInfo.GetShardKey: the key whose first shard-group id is <= the group's id),
             m      : modulus domain size (HASH: partitions, or the measurement's shard count),
             pt     : partitions of the cluster (reported to the harness; m <= pt),
             created: set of group indexes created before the first write,
@@ -81,16 +85,18 @@ ValIdx(v) == IF v = "" THEN 0 ELSE CHOOSE i \in 1..Len(TagVals) : TagVals[i] = v
 RowSet == {r \in [tags : [KeySet -> ValSet \cup {""}], u : FieldVals, t : Times] :
               \A k \in KeySet : r.tags[k] = "" => k \in OptTags}
 
-SkSet(S) == {S.sk[i] : i \in 1..Len(S.sk)}
+\* the shard key in force for the shard group with index gi
+SkOfIdx(S, gi) == IF gi \in S.created /\ gi < S.alter THEN S.sk ELSE S.sk2
+SkAt(S, t) == SkOfIdx(S, t \div GroupDur)
 
 \* UnmarshalShardKeyByTag: ErrPointShouldHaveAllShardKey
-Accepted(S, r) == \A k \in SkSet(S) : r.tags[k] # ""
+Accepted(S, r) == \A i \in 1..Len(SkAt(S, r.t)) : r.tags[SkAt(S, r.t)[i]] # ""
 
 PresentKeys(r) == SelectSeq(TagKeys, LAMBDA k : r.tags[k] # "")
 \* the key that is hashed / range-compared, as a sequence of <<tag key, tag value>>
-WKey(S, r) == IF S.sk = <<>>
+WKey(S, r) == IF SkAt(S, r.t) = <<>>
                 THEN [i \in 1..Len(PresentKeys(r)) |-> <<PresentKeys(r)[i], r.tags[PresentKeys(r)[i]]>>]
-                ELSE [i \in 1..Len(S.sk) |-> <<S.sk[i], r.tags[S.sk[i]]>>]
+                ELSE [i \in 1..Len(SkAt(S, r.t)) |-> <<SkAt(S, r.t)[i], r.tags[SkAt(S, r.t)[i]]>>]
 
 -----------------------------------------------------------------------------
 \* Order of key sequences = byte order of "name,k1=v1,k2=v2" (a proper prefix is smaller)
@@ -116,7 +122,7 @@ AllG(S) == S.created \cup {GIdx(t) : t \in Times}
 Modulus(S) == IF S.type = "hash" THEN S.m ELSE Len(S.bounds) + 1
 
 GroupsOf(S, g) ==
-  LET plain   == [start |-> g * GroupDur, end |-> (g + 1) * GroupDur, bounds |-> <<>>, m |-> S.m]
+  LET plain   == [start |-> g * GroupDur, end |-> (g + 1) * GroupDur, bounds |-> <<>>, m |-> S.m, sk |-> SkOfIdx(S, g)]
       single  == [plain EXCEPT !.m = 1]
       bounded == [plain EXCEPT !.bounds = S.bounds, !.m = Len(S.bounds) + 1]
   IN IF S.type = "hash" THEN {plain}
@@ -297,12 +303,12 @@ KeyPrefix(sk, grp) ==
 All == [all |-> TRUE, keys |-> <<>>]
 
 \* [all |-> consult every shard of the group, keys |-> the key sequences whose shards are consulted]
-PruneKeys(dv, S, c) ==
+PruneKeys(dv, S, sk, c) ==
   LET p  == Prep(c)
       gs == IF p = Nil THEN <<>> ELSE CondTags(dv, p)
-      P  == [i \in 1..Len(gs) |-> KeyPrefix(S.sk, gs[i])]
-  IN IF S.sk = <<>> \/ gs = <<>> THEN All
-     ELSE IF S.type = "hash" /\ "partial_key_narrows" \notin dv /\ \E i \in 1..Len(P) : Len(P[i]) < Len(S.sk) THEN All
+      P  == [i \in 1..Len(gs) |-> KeyPrefix(sk, gs[i])]
+  IN IF sk = <<>> \/ gs = <<>> THEN All
+     ELSE IF S.type = "hash" /\ "partial_key_narrows" \notin dv /\ \E i \in 1..Len(P) : Len(P[i]) < Len(sk) THEN All
      ELSE [all |-> FALSE,
            keys |-> IF "buffer_not_reset" \in dv
                       THEN [i \in 1..Len(P) |-> ConcatAll(SubSeq(P, 1, i))]
@@ -332,10 +338,20 @@ SlotsOf(dv, S, g, pk) ==
 Overlaps(dv, g, tr) == IF "overlap_strict" \in dv THEN g.start < tr[2] /\ g.end > tr[1]
                        ELSE g.start <= tr[2] /\ g.end > tr[1]
 
+\* coordinator/shard_mapper.go:mapMstShards asks the measurement for the shard key of each group
+\* (deviation sticky_shard_key = as implemented: the key of the first group of the list is kept for all)
+OverlapGroups(dv, S, c) == {h \in Groups(S) : Overlaps(dv, h, TimeRange(c))}
+FirstGroup(gs) == CHOOSE g \in gs : \A h \in gs : g.end < h.end \/ (g.end = h.end /\ g.start <= h.start)
+PruneWith(dv, S, c, pk1, pk2) ==
+  LET gs == OverlapGroups(dv, S, c)
+      pkOf(g) == IF "sticky_shard_key" \in dv
+                   THEN (IF FirstGroup(gs).sk = S.sk THEN pk1 ELSE pk2)
+                   ELSE (IF g.sk = S.sk THEN pk1 ELSE pk2)
+  IN UNION {{<<g.start, s>> : s \in SlotsOf(dv, S, g, pkOf(g))} : g \in gs}
+\* (the key sets are bound by quantifiers so that TLC evaluates each of them once)
 Prune(dv, S, c) ==
-  LET pk == PruneKeys(dv, S, c)
-      tr == TimeRange(c)
-  IN UNION {{<<g.start, s>> : s \in SlotsOf(dv, S, g, pk)} : g \in {h \in Groups(S) : Overlaps(dv, h, tr)}}
+  UNION {UNION {PruneWith(dv, S, c, pk1, pk2) : pk2 \in {IF S.sk2 = S.sk THEN pk1 ELSE PruneKeys(dv, S, S.sk2, c)}}
+           : pk1 \in {PruneKeys(dv, S, S.sk, c)}}
 
 -----------------------------------------------------------------------------
 \* Behaviours: a setup, then conditions probed against every row
@@ -343,14 +359,15 @@ Prune(dv, S, c) ==
 RowExp(S, r) ==
   IF Accepted(S, r)
     THEN [tags |-> r.tags, u |-> r.u, t |-> r.t, acc |-> 1, gs |-> WriteGroup(S, r).start,
-          ge |-> WriteGroup(S, r).end, slot |-> WriteRoute(S, r)[2], wkey |-> WKey(S, r)]
-    ELSE [tags |-> r.tags, u |-> r.u, t |-> r.t, acc |-> 0, gs |-> 0, ge |-> 0, slot |-> 0, wkey |-> <<>>]
+          ge |-> WriteGroup(S, r).end, slot |-> WriteRoute(S, r)[2], wkey |-> WKey(S, r), sk |-> SkAt(S, r.t)]
+    ELSE [tags |-> r.tags, u |-> r.u, t |-> r.t, acc |-> 0, gs |-> 0, ge |-> 0, slot |-> 0, wkey |-> <<>>, sk |-> SkAt(S, r.t)]
 
 GroupList(S) == LET gs == SetToSeq(Groups(S))
-                IN [i \in 1..Len(gs) |-> [start |-> gs[i].start, end |-> gs[i].end, m |-> gs[i].m, bounds |-> gs[i].bounds]]
+                IN [i \in 1..Len(gs) |-> [start |-> gs[i].start, end |-> gs[i].end, m |-> gs[i].m, bounds |-> gs[i].bounds,
+                                          sk |-> gs[i].sk]]
 
 SetupStep(S) == [a |-> "Setup",
-                 args |-> [type |-> S.type, sk |-> S.sk, m |-> S.m, pt |-> S.pt, created |-> SetToSeq(S.created),
+                 args |-> [type |-> S.type, sk |-> S.sk, sk2 |-> S.sk2, alter |-> S.alter, m |-> S.m, pt |-> S.pt, created |-> SetToSeq(S.created),
                            split |-> S.split, bounds |-> S.bounds, dur |-> GroupDur, splitoff |-> SplitOff],
                  exp |-> [rows |-> [i \in 1..Len(RowSeq) |-> RowExp(S, RowSeq[i])], groups |-> GroupList(S)]]
 
@@ -360,8 +377,13 @@ ProbeStep(S, c) ==
    exp |-> [tr |-> TimeRange(c),
             match |-> LET rt == RouteTab[S] tr == TimeRange(c)
                       IN [i \in 1..Len(RowSeq) |-> IF rt[i] # NoRoute /\ EvalIn(tr, c, RowSeq[i]) THEN 1 ELSE 0],
-            models |-> LET Ds == SetToSeq(SUBSET ImplDevs)
-                       IN [i \in 1..Len(Ds) |-> [dev |-> SetToSeq(Ds[i]), prune |-> PruneKeys(Ds[i], S, c)]]]]
+            \* per deviation set: the key sets under the original (p1) and the altered (p2) shard key; the
+            \* harness applies them per group (sticky_shard_key: the first group's choice for all groups)
+            models |-> LET Ds == SetToSeq(SUBSET (IF S.sk2 = S.sk THEN ImplDevs \ {"sticky_shard_key"} ELSE ImplDevs))
+                       IN [i \in 1..Len(Ds) |->
+                             [dev |-> SetToSeq(Ds[i]),
+                              p1 |-> PruneKeys(Ds[i] \ {"sticky_shard_key"}, S, S.sk, c),
+                              p2 |-> IF S.sk2 = S.sk THEN All ELSE PruneKeys(Ds[i] \ {"sticky_shard_key"}, S, S.sk2, c)]]]]
 
 \* the root shapes of the enumerated trees; "small" = the trees that are operands themselves
 Slices == IF EnumAll /\ MaxLevel >= 2
@@ -419,7 +441,7 @@ Spec == Init /\ [][Next]_vars
 \* C11, write side: an accepted row lies in exactly one shard whose group covers its timestamp,
 \* and that is the shard it is written to (depends on the setup only: checked on the initial states)
 UniqueCoveringShard ==
-  cur = NoCond =>
+  (cur = NoCond /\ slice[1] = "small") =>
     \A r \in RowSet : Accepted(setup, r) =>
        /\ Cardinality(Covering(setup, r.t)) = 1
        /\ Cardinality(CoveringShards(setup, r)) = 1
@@ -435,7 +457,7 @@ PruneSoundFor(dv, S, c) == MatchingRoutes(S, c) \subseteq Prune(dv, S, c)
 PruneSound == cur # NoCond => PruneSoundFor(Dev, setup, cur)
 
 \* no condition and no time bound consults everything
-NoCondAll == cur = NoCond =>
+NoCondAll == (cur = NoCond /\ slice[1] = "small") =>
                Prune(Dev, setup, [k |-> "fgt", num |-> NegInf]) =
                    UNION {{<<g.start, s>> : s \in 0..(g.m - 1)} : g \in Groups(setup)}
 =============================================================================
